@@ -540,6 +540,7 @@ func runScenario(out *vh.Out, w *world, sc *scenario, r *vh.Rng, rounds int) {
 	next0 := rig.NextInstance()
 	type rec struct {
 		poll  int64
+		end   int64 // mock-clock time at which the round's poll had returned
 		adv   uint64
 		reqs  int
 		delay int64
@@ -547,7 +548,7 @@ func runScenario(out *vh.Out, w *world, sc *scenario, r *vh.Rng, rounds int) {
 	var recs []rec
 	select {
 	case <-rig.TimerCreated():
-	case <-time.After(10 * time.Second):
+	case <-time.After(90 * time.Second):
 		out.Line("stuck sc=%d k=-1 expected=%d exited=false err=%q", sc.id, deadline, "timer never created")
 		return
 	}
@@ -561,7 +562,7 @@ func runScenario(out *vh.Out, w *world, sc *scenario, r *vh.Rng, rounds int) {
 		e.gate.Unlock()
 		var v float64
 		got := false
-		for waited := 0; waited < 160 && !got; waited++ {
+		for waited := 0; waited < 1800 && !got; waited++ {
 			select {
 			case v = <-delayCh:
 				got = true
@@ -593,13 +594,15 @@ func runScenario(out *vh.Out, w *world, sc *scenario, r *vh.Rng, rounds int) {
 		netnew := int64(store1-store0) - int64(e.localInPoll)
 		out.Line("round sc=%d k=%d poll=%d next0=%d store0=%d next1=%d store1=%d netnew=%d reqs=%d lat=%d delay=%d late=%d since=%d sincearg=%d until=%d untilarg=%d",
 			sc.id, k, deadline, next0, store0, next1, store1, netnew, e.reqs, now-deadline, delay, e.localLastReq, since, sinceArg, until, untilArg)
-		recs = append(recs, rec{poll: deadline, adv: next1 - next0, reqs: e.reqs, delay: delay})
+		recs = append(recs, rec{poll: deadline, end: now, adv: next1 - next0, reqs: e.reqs, delay: delay})
 		next0 = next1
 		deadline = now + delay
 	}
 	// cadence summary over the second half of the run, and over the production stall if any
 	half := recs[len(recs)/2:]
-	t0, t1 := half[0].poll, recs[len(recs)-1].poll
+	// the window opens when round half[0] has RETURNED: what was produced while its requests were in flight may have been
+	// fetched by that round already, and its advance is not counted below (only half[1:] is)
+	t0, t1 := half[0].end, recs[len(recs)-1].poll
 	produced := 0
 	for _, ev := range e.prod {
 		if ev.t > t0 && ev.t <= t1 {
